@@ -12,6 +12,8 @@ Structural facts, each an AST pattern (any other shape raises TranslationError, 
         without such a decorator is an unknown shape.  Each factory must still contain its class creation
         (3-argument `type(...)`, `new_class(...)` or a `class` statement inside the function).
   node_classes_created_per_execute = node_instantiation_in_execute and not memo_node_class
+        Memoising the adapter / node-class factory while a shorthand / sweep factory still makes a new class per call is
+        outside the modelled class (cache keyed by per-run classes) and is refused.
   adapter_classes / node_classes   per framework role, the number of `_IOOperationFactory.create_data_operation` /
         `_PipelineNodeFactory._create_class` calls in the `create_*` function that `_pipeline_node_factory` (and
         `create_io_node`) dispatch that role to (`if issubclass(processor, <Base>): return _PipelineNodeFactory.<fn>(...)`).
@@ -331,6 +333,13 @@ def analyse(repo=None):
         raise TranslationError("build_canonical_spec does not preprocess each node exactly once")
     if sum(1 for c in _calls(top) if _u(c.func) == "preprocess_node_config") != 1:
         raise TranslationError("_pipeline_node_factory does not preprocess the node configuration exactly once")
+
+    # the model keys memo tables by the *text* of the factory arguments; that is exact only when the class handed to a
+    # downstream factory (adapter, node class) is itself stable, i.e. every upstream class factory is memoised too
+    upstream = ["FRename", "FDelete", "FTemplate", "FSlice", "FSweep"]
+    if (memo["FAdapter"] or memo["FNode"]) and not all(memo[u] for u in upstream):
+        raise TranslationError("partial memoisation outside the modelled class: adapter/node-class factory memoised while %s create a new "
+                               "class per call (the cache would be keyed by per-run classes)" % [u for u in upstream if not memo[u]])
 
     # ---- transport channel table ---------------------------------------------------------------------------
     tree, p = _load("inmem", repo)
